@@ -13,6 +13,9 @@ def behaviours():
     seen, out = set(), []
     for j in res["json"]:
         if "behaviour" in j:
+            # TLC evaluates invariants on states that the CONSTRAINT then discards: keep Shape behaviours only
+            if any(sum(1 for op in j["behaviour"] if op["op"] == o) > 1 for o in ("Construct", "Call", "Dump")):
+                continue
             k = json.dumps(j["behaviour"], sort_keys=True)
             if k not in seen:
                 seen.add(k)
